@@ -227,7 +227,10 @@ def judge(st: Stats, case, obs, dev, marks, tidx, scen, fault):
     res, before, after, ref, online = obs
     during = dev.rx[marks["start"]:marks["end"]]
     post = dev.rx[marks["end"]:marks.get("retry_from", len(dev.rx))]
-    if marks.get("retry") != "ok":
+    # (a reply whose marker / size field is damaged desynchronises the byte stream of that connection; what a later attempt on
+    # the same connection then sees is not something C06 speaks about)
+    desync = fault[0] == "hdrbit" and fault[1] < 32
+    if marks.get("retry") != "ok" and not desync:
         st.violation(f"{'genuine' if fault[0] == 'genuine' else 'after a faulty reply'}: a following genuine authentication fails ({marks.get('retry')})"[:90],
                      case, "authenticated and exchanging", marks.get("retry"))
     genuine = fault[0] == "genuine"
